@@ -331,6 +331,27 @@ Example ex_sync_blocked_reachable :   (* C17_single_nonblocking is not vacuous: 
 Proof. exists (flat_map (fun _ => [LParent]) (seq 0 9) ++ [LChild; LChild; LChild; LChild] ++ flat_map (fun _ => [LParent]) (seq 0 6)).
   vm_compute. reflexivity. Qed.
 
+(* the capacity of the pipe buffer is in the model.  A parent that reaps the child BEFORE it reads the
+   result (process.join() ahead of rx.recv() - the "tidy up first" reordering) is fine for a small
+   result, but for a result larger than the buffer it ends in the distinguished configuration
+   deadlock: the child sits in write() until somebody drains the pipe, the parent sits in join() until
+   the child exits - neither can step, and only a kill from outside would end it.  The regenerated program passes the sweep (C17_programs_check), this
+   one fails it, so the termination theorems above do depend on recv() coming first. *)
+Definition b_big_sync := mk_beh COk [] true true false false false.
+Theorem C17_join_before_recv_deadlocks_on_large_result :
+  (let s := lrun join_first_parent_prog C b_big_sync fair1 linit in
+   parent_enabled join_first_parent_prog C b_big_sync s = false /\ child_enabled join_first_parent_prog C b_big_sync s = false /\
+   c_sending (cs s) = true /\ c_running s = true /\ p_done s = false) /\
+  p_stat (ps (lrun join_first_parent_prog C b_ok fair1 linit)) = PSDone FReturnCallee /\
+  check_all join_first_parent_prog C true true = false /\
+  p_stat (ps (run1 b_big_sync fair1)) = PSDone FReturnCallee.
+Proof.
+  split; [vm_compute; repeat split; reflexivity|].
+  split; [vm_compute; reflexivity|].
+  split; [exact join_first_fails_sweep | vm_compute; reflexivity].
+Qed.
+Print Assumptions C17_join_before_recv_deadlocks_on_large_result.
+
 Example ex_protected : check_all protected_parent_prog C true true = true.
 Proof. exact protected_strict. Qed.
 Example ex_unpickle_error_clean :
